@@ -18,7 +18,7 @@ from mc import forktree
 ID = "C09"
 RULE = (
     "E2 fork-snapshot exploration: ALL histories of length <= L over the alphabet {create(f2003), "
-    "create(f2008), parse(v1..v6), parse(i1..i5)} (sources chosen to collide: same unit names, an "
+    "create(f2008), parse(v1..v7), parse(i1..i6)} (sources chosen to collide: same unit names, an "
     "intrinsic name declared in one and referenced in another, anonymous main program, unnamed BLOCKs, "
     "F2008-only unit; failures at top level, inside nested scopes, inside an anonymous program, "
     "InternalSyntaxError with scopes open, second unit failing). Oracles at every node: (1) after "
@@ -42,11 +42,13 @@ SOURCES = {
     "v4": "program q\n block\n  integer :: i\n  i = 1\n end block\n block\n end block\nend program q\n",
     "v5": "submodule (m) p\ncontains\n subroutine sin()\n end subroutine sin\nend submodule p\n",
     "v6": "module p\n integer :: tan\ncontains\n subroutine s()\n  x = tan(1.0) + cos(2.0)\n end subroutine s\nend module p\n",
+    "v7": "program p\n use mm, only: tan\n x = 1\nend program p\n",
     "i1": "this is not fortran\n",
     "i2": "module p\ncontains\nsubroutine s\n integer :: sin\n nm: do i = 1, 2\n end do zz\nend subroutine s\nend module p\n",
     "i3": " integer :: cos\n x = = 1\n end\n",
     "i4": "program p\n integer :: cos\n x = sin(1, 2, 3)\nend program p\n",
     "i5": "module m2\n integer :: tan\nend module m2\nprogram p\n x = = 1\nend program p\n",
+    "i6": "program p\n use mm, only: sin, cos\n x = = 1\nend program p\n",
 }
 OPS = ["c3", "c8"] + sorted(SOURCES)
 OPS_SMALL = ["c3", "c8", "v1", "v2", "v3", "v4", "i2", "i3", "i4"]
